@@ -24,7 +24,7 @@ fn names(r: &mut Rng) -> Vec<String> {
 }
 
 pub fn think_times(d: Duration) -> Vec<Duration> {
-    vec![Duration::ZERO, ms(1), d - ms(1), d, d + ms(1), d + d / 2, d * 4]
+    vec![Duration::ZERO, ms(1), d.saturating_sub(ms(1)), d, d + ms(1), d + d / 2, d * 4]
 }
 
 fn raw(r: &mut Rng) -> Req {
@@ -161,7 +161,7 @@ pub fn directed(idx: u64, variant: u64, d: Duration) -> Scenario {
         // changes inside the re-idle window
         15 => {
             s.callers = vec![(ms(20), vec![Step::Do(Req::Raw { shape: 1 }), Step::Think(d + ms(50)), Step::Do(Req::Raw { shape: 1 })])];
-            s.notifications = vec![(ms(20 + dms / 2), vec!["player".into()]), (ms(20 + dms - 1), vec!["mixer".into()]), (ms(20 + dms), vec!["sticker".into()]), (ms(20 + dms + 1), vec!["update".into()])];
+            s.notifications = vec![(ms(20 + dms / 2), vec!["player".into()]), (ms((20 + dms).saturating_sub(1)), vec!["mixer".into()]), (ms(20 + dms), vec!["sticker".into()]), (ms(20 + dms + 1), vec!["update".into()])];
         }
         // P10: list failing at index 0 / middle / last
         16 => {
@@ -230,7 +230,7 @@ pub fn directed(idx: u64, variant: u64, d: Duration) -> Scenario {
         // notification exactly when the window expires / idle is re-sent
         26 => {
             s.callers = vec![(ms(20), vec![Step::Do(Req::Raw { shape: 0 })])];
-            s.notifications = vec![(ms(20 + dms - 1 + variant % 3), vec!["player".into()]), (ms(20 + dms + 5), vec!["mixer".into()])];
+            s.notifications = vec![(ms((20 + dms + variant % 3).saturating_sub(1)), vec!["player".into()]), (ms(20 + dms + 5), vec!["mixer".into()])];
             s.world.c2s_latency = vec![ms(variant % 2)];
         }
         // typed workload mixed with raw
@@ -305,8 +305,8 @@ pub fn grid(idx: u64, d: Duration) -> Scenario {
         s.name = format!("timing-grid-B(second request {} ms around the window end, change {} ms around it, latency {})", a as i64 - 5, b as i64 - 5, lat * 2);
         s.world.c2s_latency = vec![ms(lat * 2)];
         // first reply is delivered at 20 ms (+ latency); the window ends D later
-        s.callers = vec![(ms(20), vec![Step::Do(Req::Raw { shape: 0 })]), (ms(20 + lat * 2 + dms - 5 + a), vec![Step::Do(Req::Raw { shape: 1 })])];
-        s.notifications = vec![(ms(20 + lat * 2 + dms - 5 + b), vec!["sticker".into()])];
+        s.callers = vec![(ms(20), vec![Step::Do(Req::Raw { shape: 0 })]), (ms((20 + lat * 2 + dms + a).saturating_sub(5)), vec![Step::Do(Req::Raw { shape: 1 })])];
+        s.notifications = vec![(ms((20 + lat * 2 + dms + b).saturating_sub(5)), vec!["sticker".into()])];
     }
     s
 }
